@@ -369,6 +369,8 @@ def correspondence(ctx):
         k = int(g.integers(1, 4))
         ps = [vecs[int(g.integers(0, len(vecs)))][1] for _ in range(k)]
         lns = [[int(x) for x in g.integers(1, 200, size=int(g.integers(1, 4)))] for _ in range(k)]
+        if t % 2:
+            lns = [ns + [ns[0]] for ns in lns]        # a sample size that occurs twice
         seed = seeds[t % len(seeds)]
         got = dg.generate_empi_dists_sequence_from_prob_dists(ps, lns, seed)
         gen = MT(seed)
@@ -444,6 +446,7 @@ class Entry:
     def __init__(self, name, run, ref=None, big=False, run_kw=None):
         self.name, self.run, self.ref, self.big = name, run, ref, big
         self.run_kw = run_kw     # the same call with the seed passed as keyword `seed_or_generator=`
+        self.obj, self.seed_data = None, None   # the tomography object behind the entry and the seed_data it was built with
 
 
 def ref_data(p, n, gen):
@@ -465,11 +468,11 @@ def entries(ctx):
     E.append(Entry("data_generator.generate_data_from_prob_dist", lambda s: dg.generate_data_from_prob_dist(p1, 60, s),
                    lambda gen: ref_data(p1, 60, gen), big=True))
     E.append(Entry("data_generator.generate_empi_dist_sequence_from_prob_dist",
-                   lambda s: dg.generate_empi_dist_sequence_from_prob_dist(p2, [10, 100, 1000], s),
-                   lambda gen: ref_empi_seq(p2, [10, 100, 1000], gen)))
+                   lambda s: dg.generate_empi_dist_sequence_from_prob_dist(p2, [10, 100, 10, 1000, 100], s),
+                   lambda gen: ref_empi_seq(p2, [10, 100, 10, 1000, 100], gen)))
     E.append(Entry("data_generator.generate_empi_dists_sequence_from_prob_dists",
-                   lambda s: dg.generate_empi_dists_sequence_from_prob_dists([p1, p2, p1], [[50, 60], [70], [50, 60]], s),
-                   lambda gen: [ref_empi_seq(p, ns, gen) for p, ns in zip([p1, p2, p1], [[50, 60], [70], [50, 60]])]))
+                   lambda s: dg.generate_empi_dists_sequence_from_prob_dists([p1, p2, p1], [[50, 60, 50], [70, 70], [50, 60]], s),
+                   lambda gen: [ref_empi_seq(p, ns, gen) for p, ns in zip([p1, p2, p1], [[50, 60, 50], [70, 70], [50, 60]])]))
     # Experiment: two schedules with the *same* distribution (so a stream that is not shared shows up as identical data)
     st = [qobj.rand_state(g, c)]
     pv = [qobj.rand_povm(g, c, 3), qobj.rand_povm(g, c, 2)]
@@ -483,10 +486,10 @@ def entries(ctx):
     E.append(Entry("Experiment.generate_dataset", lambda s: ex.generate_dataset([40, 40, 30], s),
                    lambda gen: [ref_data(p, n, gen) for p, n in zip(pds, [40, 40, 30])], big=True,
                    run_kw=lambda s: ex.generate_dataset([40, 40, 30], seed_or_generator=s)))
-    E.append(Entry("Experiment.generate_empi_dist_sequence", lambda s: ex.generate_empi_dist_sequence(0, [20, 200], s),
-                   lambda gen: ref_empi_seq(pds[0], [20, 200], gen)))
-    E.append(Entry("Experiment.generate_empi_dists_sequence", lambda s: ex.generate_empi_dists_sequence([[30, 30, 30], [300, 300, 300]], s),
-                   lambda gen: [ref_empi_seq(p, [30, 300], gen) for p in pds]))
+    E.append(Entry("Experiment.generate_empi_dist_sequence", lambda s: ex.generate_empi_dist_sequence(0, [20, 200, 20], s),
+                   lambda gen: ref_empi_seq(pds[0], [20, 200, 20], gen)))
+    E.append(Entry("Experiment.generate_empi_dists_sequence", lambda s: ex.generate_empi_dists_sequence([[30, 30, 30], [300, 300, 300], [30, 30, 30]], s),
+                   lambda gen: [ref_empi_seq(p, [30, 300, 30], gen) for p in pds]))
     # tomography classes (testers with different outcome counts where the class allows it)
     from quara.protocol.qtomography.standard.standard_qst import StandardQst
     from quara.protocol.qtomography.standard.standard_povmt import StandardPovmt
@@ -548,10 +551,11 @@ def entries(ctx):
                        run_kw=(lambda t, true: lambda s: t.generate_empi_dists(true, 300, seed_or_generator=s))(t, true)))
 
         def ref_seq(gen, tp=tp):
-            per = [ref_empi_seq(p, [40, 400], gen) for p in tp]          # schedule-major consumption
-            return [[per[s][j] for s in range(len(tp))] for j in range(2)]  # returned sample-size-major
-        E.append(Entry(f"{name}.generate_empi_dists_sequence", (lambda t, true: lambda s: t.generate_empi_dists_sequence(true, [40, 400], s))(t, true), ref_seq,
-                       run_kw=(lambda t, true: lambda s: t.generate_empi_dists_sequence(true, [40, 400], seed_or_generator=s))(t, true)))
+            per = [ref_empi_seq(p, [40, 400, 40], gen) for p in tp]          # schedule-major consumption
+            return [[per[s][j] for s in range(len(tp))] for j in range(3)]  # returned sample-size-major
+        E.append(Entry(f"{name}.generate_empi_dists_sequence", (lambda t, true: lambda s: t.generate_empi_dists_sequence(true, [40, 400, 40], s))(t, true), ref_seq,
+                       run_kw=(lambda t, true: lambda s: t.generate_empi_dists_sequence(true, [40, 400, 40], seed_or_generator=s))(t, true)))
+        E[-1].obj, E[-1].seed_data = t, t._experiment.seed_data
     return E
 
 
@@ -901,6 +905,39 @@ def oracle(ctx, volume=1):
             purity(ctx, e, seed, hist, {"kind": "purity", "entry": e.name, "seed": seed, "hist": hist})
             ctx.case(("o-purity", e.name, seed, hist), sample={"op": "purity", "entry": e.name, "seed": seed, "histories": hist})
             ctx.count("purity " + e.name.split(".")[0])
+    # QTomography.reset_seed: replay of unseeded generation through the global state (objects built WITH seed_data)
+    for e in E:
+        if e.obj is None or e.seed_data is None or e.ref is None:
+            continue
+        t, s0 = e.obj, e.seed_data
+        rep = {"kind": "reset-seed", "entry": e.name, "seed_data": s0}
+        ctx.case(("o-reset-seed", e.name))
+        site = f"C14/{e.name.split('.')[0]}.reset_seed"
+
+        def want(seed_value, calls=1):
+            np.random.seed(seed_value)
+            return [canon(e.ref(np.random)) for _ in range(calls)]
+        try:
+            perturb(31337, 11); t.reset_seed(); a = [canon(e.run(None)), canon(e.run(None))]
+            np.random.random(17); t.reset_seed(); b = canon(e.run(None))
+            perturb(4, 3); t.reset_seed(s0); c2 = canon(e.run(None))
+            s1 = s0 + 12345
+            perturb(5, 1); t.reset_seed(s1); d = canon(e.run(None)); held = t._experiment.seed_data
+            np.random.random(3); t.reset_seed(); d2 = canon(e.run(None))
+            t.reset_seed(s0)            # restore
+        except Exception as ex:  # noqa
+            ctx.violate(f"{site}/raises", f"{type(ex).__name__}: {ex}", rep); continue
+        w0 = want(s0, 2)
+        if a != w0:
+            ctx.violate(f"{site}/no-arg/not-a-replay", f"after reset_seed() unseeded generation is not the stream of np.random.seed({s0})", rep)
+        elif b != w0[0]:
+            ctx.violate(f"{site}/no-arg/second-reset-does-not-rewind", "reset_seed() after earlier draws does not rewind the global state to the seed", rep)
+        if c2 != w0[0]:
+            ctx.violate(f"{site}/same-seed/does-not-rewind", f"reset_seed({s0}) (the seed the object already holds) does not rewind the global state", rep)
+        if d != want(s1)[0] or held != s1:
+            ctx.violate(f"{site}/new-seed", f"reset_seed({s1}) does not re-seed with the new seed (seed_data now {held})", rep)
+        elif d2 != want(s1)[0]:
+            ctx.violate(f"{site}/no-arg/after-new-seed", "reset_seed() does not replay the seed set by the previous reset_seed(seed)", rep)
     # to_stream itself
     gen = MT(3)
     if to_stream(None) is not np.random or to_stream(gen) is not gen or not isinstance(to_stream(3), np.random.Generator) \
